@@ -273,6 +273,9 @@ func (t *Thread) processIncomingInterest(packet *defn.Pkt) {
 					packet.Raw = csWire
 					packet.Name = csData.NameV
 					strategy.AfterContentStoreHit(packet, pitEntry, incomingFace.FaceID())
+					// The Interest is answered: let the reaper remove the PIT entry
+					// (otherwise an entry answered from the cache is never scheduled for expiry)
+					table.SetExpirationTimerToNow(pitEntry)
 					return
 				} else if err != nil {
 					core.LogError(t, "Error copying CS entry: ", err)
